@@ -175,7 +175,7 @@ func runC01(e *env) error {
 	_ = os.MkdirAll(base, 0o755)
 	n := 14
 	if e.thorough {
-		n = 120
+		n = 120 * e.scale
 	}
 	cases := apiCases(r, n, base)
 	type obs struct {
